@@ -56,6 +56,7 @@ type opResult struct {
 	parts    []part
 	modified bool   // O2: physical snapshot of the inputs differed after the operation
 	pre      string // kept only when modified
+	reused   int    // decodes into a packet object that was decoded into before, compared with a fresh object (receiver reuse)
 	incons   bool   // O4 inside one operation: equal octets decoded twice gave different results (pre = fresh buffer, post = reused buffer)
 	post     string
 	postSem  string // semantic dump of the input object after an XR-reaching Marshal
@@ -593,6 +594,7 @@ func (w *world) execOp(t int, op *Op, in *slotVal) (res opResult, out slotVal) {
 				_ = vopUnmarshalTyped(pr, append([]byte(nil), prior...))
 				e2 := vopUnmarshalTyped(p2, append([]byte(nil), b...))
 				e3 := vopUnmarshalTyped(pr, append([]byte(nil), b...))
+				res.reused++
 				if e2 == nil && e3 == nil {
 					o2, o3 = observe(p2), observe(pr)
 				} else {
@@ -1507,6 +1509,12 @@ func (w *world) volume(t int, op *Op, in *slotVal, res *opResult) {
 				}
 				b, err := vopMarshal(twin)
 				h := fnvBytes(0xcbf29ce484222325^uint64(it)*0x9E3779B97F4A7C15, b)
+				if it&7 == 3 && it < 1<<15 {
+					// distinct values pass through the text side as well (a table of labels or names fills up)
+					if st, ok := twin.(fmt.Stringer); ok {
+						h = fnv(h, stripAddrs(vopString(st)))
+					}
+				}
 				if err != nil {
 					h ^= 0x3E44
 				} else if len(b) > 0 {
